@@ -6,7 +6,7 @@ W=$1; NAME=$2; shift 2
 cd /verif
 mkdir -p benign/$NAME
 ( cd $W && git diff -- mpgameserver ) > benign/$NAME/patch.diff
-T=$(cd $W && /venv/bin/python -m pytest -q -p no:cacheprovider --timeout=900 2>&1 | tail -1)
+if [ -n "$SKIP_SUITE" ]; then T="(not re-run)"; else T=$(cd $W && /venv/bin/python -m pytest -q -p no:cacheprovider --timeout=900 2>&1 | tail -1); fi
 echo "suite: $T" | tee benign/$NAME/result.txt
 for c in "$@"; do
   s=$(date +%s)
